@@ -195,6 +195,74 @@ func checkC10(c *Ctx, r *Report) {
 		}
 	}
 
+	// ---------- R2 ----------
+	r.Rule("C10-R2", "every replacement or removal of an endpoint's listing (Store/Delete on endpointModels) is preceded on all paths by the index-removal helper (the method that deletes the endpoint from modelToEndpoints for every model of the old listing): the model→endpoints index never keeps entries of a replaced listing", 3)
+	var idxRemovers []*ssa.Function
+	for _, f := range c.Funcs {
+		if f.Parent() != nil || f.Signature.Recv() == nil || !strings.HasSuffix(fnPkgPath(f), pkgRegistry) {
+			continue
+		}
+		recv := ssa.Value(f.Params[0])
+		delIdx, loadsListing, storesListing := false, false, false
+		eachInstr(f, func(in ssa.Instruction) {
+			if cc := getCall(in); cc != nil && !cc.IsInvoke() && len(cc.Args) > 0 {
+				ci := describeCall(cc)
+				if strings.Contains(ci.Pkg, "xsync") {
+					fld := receiverStateField(cc.Args[0], recv, 8)
+					if fld == "modelToEndpoints" && ci.Name == "Delete" {
+						delIdx = true
+					}
+					if fld == "endpointModels" && ci.Name == "Load" {
+						loadsListing = true
+					}
+					if fld == "endpointModels" && (ci.Name == "Store" || ci.Name == "Delete") {
+						storesListing = true
+					}
+				}
+			}
+		})
+		if delIdx && loadsListing && !storesListing {
+			idxRemovers = append(idxRemovers, f)
+		}
+	}
+	if len(idxRemovers) == 0 {
+		r.Unresolved("C10-R2", "index-removal helper of the base registry")
+	}
+	isIdxRemoverCall := func(in ssa.Instruction) bool {
+		cc := getCall(in)
+		if cc == nil {
+			return false
+		}
+		for _, h := range idxRemovers {
+			if cc.StaticCallee() == h {
+				return true
+			}
+		}
+		return false
+	}
+	for _, f := range c.Funcs {
+		if f.Parent() != nil || f.Signature.Recv() == nil || !strings.HasSuffix(fnPkgPath(f), pkgRegistry) {
+			continue
+		}
+		recv := ssa.Value(f.Params[0])
+		eachInstr(f, func(in ssa.Instruction) {
+			cc := getCall(in)
+			if cc == nil || cc.IsInvoke() || len(cc.Args) == 0 {
+				return
+			}
+			ci := describeCall(cc)
+			if !strings.Contains(ci.Pkg, "xsync") || (ci.Name != "Store" && ci.Name != "Delete") || receiverStateField(cc.Args[0], recv, 8) != "endpointModels" {
+				return
+			}
+			key := fmt.Sprintf("%s:endpointModels.%s", fname(f), ci.Name)
+			if reachFromEntryAvoiding(f, in, isIdxRemoverCall) {
+				r.Bad("C10-R2", key, in.Pos(), "an endpoint's listing is replaced/removed on a path that did not first remove the endpoint from the model→endpoints index: models dropped from the listing stay attributed to the endpoint")
+			} else {
+				r.OK("C10-R2", key, in.Pos(), "dominated on all paths by the index-removal helper")
+			}
+		})
+	}
+
 	// ---------- R3 lock discipline ----------
 	r.Rule("C10-R3", "every access to MemoryModelRegistry.{endpointModels,modelToEndpoints,stats} happens with MemoryModelRegistry.mu held (a dominating Lock/RLock not followed by a dominating Unlock), or in an unexported helper all of whose callers hold it; mutations of UnifiedMemoryModelRegistry.globalUnified hold unificationMutex; GlobFilter.patternCache accesses hold cacheMu", 20)
 	checkLockDiscipline(c, r, pkgRegistry, "MemoryModelRegistry", "mu", map[string]bool{"endpointModels": true, "modelToEndpoints": true, "stats": true}, false)
@@ -212,6 +280,8 @@ func checkC10(c *Ctx, r *Report) {
 	addMutants(
 		Mutant{Prop: "C10", Name: "validate-after-mutate", File: "internal/adapter/registry/memory_registry.go", Rule: "C10-R1", Canary: true,
 			Old: "			continue // Skip nil models\n		}\n", New: "			continue // Skip nil models\n		}\n		if model.Size < 0 {\n			return domain.NewModelRegistryError(\"register_models\", endpointURL, model.Name, fmt.Errorf(\"negative size\"))\n		}\n"},
+		Mutant{Prop: "C10", Name: "reindex-shortcut", File: "internal/adapter/registry/memory_registry.go", Rule: "C10-R2",
+			Old: "	r.removeEndpointFromIndex(endpointURL)\n\n	if len(models) == 0 {", New: "	if old, ok := r.endpointModels.Load(endpointURL); !ok || len(old.Models) != len(models) {\n		r.removeEndpointFromIndex(endpointURL)\n	}\n\n	if len(models) == 0 {"},
 		Mutant{Prop: "C10", Name: "unlocked-read", File: "internal/adapter/registry/memory_registry.go", Rule: "C10-R3",
 			Old: "	r.mu.RLock()\n	defer r.mu.RUnlock()\n\n	endpointSet, ok := r.modelToEndpoints.Load(modelName)\n	if !ok {\n		return []string{}, nil\n	}", New: "	endpointSet, ok := r.modelToEndpoints.Load(modelName)\n	if !ok {\n		return []string{}, nil\n	}"},
 		Mutant{Prop: "C10", Name: "joined-memo-key", File: "internal/adapter/filter/glob_filter.go", Rule: "C10-R4",
@@ -454,6 +524,10 @@ func checkMemoKeys(c *Ctx, r *Report) {
 			o, fld, _ := fieldOf(fa)
 			key := fmt.Sprintf("%s:%s.%s", fname(f), recvTypeName(o), fld.Name())
 			n := dynamicStringParts(k, 3)
+			if pc := pointerComponent(k.Type(), 3); pc != "" {
+				r.Bad("C10-R4", key, in.Pos(), "memo/table key contains "+pc+": the entry is keyed by object identity, not by the values (names, patterns) the answer must depend on — a later change of the pointed-to configuration is ignored for names already looked up")
+				return
+			}
 			switch {
 			case n >= 2:
 				r.Bad("C10-R4", key, in.Pos(), fmt.Sprintf("memo/table key is a concatenation of %d free strings with constant separators: distinct inputs can share a key, so an earlier lookup can decide a later one", n))
@@ -462,6 +536,28 @@ func checkMemoKeys(c *Ctx, r *Report) {
 			}
 		})
 	}
+}
+
+// pointerComponent: the key type contains a pointer/interface/chan/func component (identity, not value).
+func pointerComponent(t types.Type, depth int) string {
+	if depth == 0 {
+		return ""
+	}
+	switch u := t.Underlying().(type) {
+	case *types.Pointer:
+		return "a pointer (" + t.String() + ")"
+	case *types.Interface, *types.Chan, *types.Signature:
+		return "an identity-compared component (" + t.String() + ")"
+	case *types.Struct:
+		for i := 0; i < u.NumFields(); i++ {
+			if s := pointerComponent(u.Field(i).Type(), depth-1); s != "" {
+				return s
+			}
+		}
+	case *types.Array:
+		return pointerComponent(u.Elem(), depth-1)
+	}
+	return ""
 }
 
 // dynamicStringParts: number of non-constant string operands combined into v by Sprintf/concatenation (0 if v is not built that way).
